@@ -5329,3 +5329,34 @@ def lstsq_rows(r: R, chk, qual: str = "heavy.Linalg.lstsq", rule="LSTSQ-ROWS"):
                func=qual, construct="equations rescaled before the normal equations")
     chk.floor(rule, f"normal equations in {qual}", n, 1)
     return n
+
+
+# ---------------------------------------------------------------------------------------------------------
+# INT-MATRIX: a transformation matrix that can be an integer identity is multiplied as a matrix of objects
+def int_matrix(r: R, chk, quals: List[str], rule="INT-MATRIX", floor: int = 2):
+    """The matrices of heavy.Operations / MathOperations hold Fractions for Fraction knots — except where nothing has to be done
+    (equal knot vectors: no knot inserted, no degree raised): then they are identities of Python ints.  `np.array(M)` of those is
+    an int64 array, and its product with integer control points is int64 arithmetic: 2**62 + 2**62 wraps around silently.  Where
+    such a matrix is the left factor of a product, it is converted with dtype="object"."""
+    n = 0
+    for q in quals:
+        fi = r.prog.func(q)
+        fn = fi.node
+        pos = _block_defs(fn)
+        sm = _stmt_map(fn)
+        # names bound (directly or by tuple unpacking) to a result of the heavy transformation helpers
+        mats = set()
+        for a in ast.walk(fn):
+            if isinstance(a, ast.Assign) and isinstance(a.value, ast.Call) and any(k in seg(a.value.func) for k in ("Operations.", "add_spline_curve", "matrix_transformation")):
+                for t in a.targets:
+                    mats |= _target_names(t)
+        for c in ast.walk(fn):
+            if not (isinstance(c, ast.Call) and seg(c.func) in ("np.array", "np.asarray") and c.args and isinstance(c.args[0], ast.Name) and c.args[0].id in mats):
+                continue
+            n += 1
+            ok = any(k.arg == "dtype" and "object" in seg(k.value) for k in c.keywords)
+            chk.ob(rule, f"{q}: `{seg(c, 40)}` is a matrix of objects", ok, loc=f"{fi.module}.py:{c.lineno}",
+                   detail="" if ok else f"{q}: `{seg(c, 40)}` lets numpy choose the dtype: for equal knot vectors the transformation is an identity of Python ints, the array is int64 and its product with integer control points (or with the other integer matrix) is computed in 64 bits — Curve(U, [2**62, 1]) + Curve(U, [2**62, 1]) has the control point -9223372036854775808, silently",
+                   func=q, construct="transformation matrix converted without dtype=object")
+    chk.floor(rule, "conversions of transformation matrices to arrays", n, floor)
+    return n
